@@ -32,10 +32,11 @@ def run(tier="quick", seed=0):
 
     # formats: the widths of the array types, an odd width, and - because a signed (n+1)-bit format and an unsigned n-bit format
     # have the same number of value bits - their signed neighbours; every format is built twice in one process, in both orders
-    formats = [(sg, nb) for sg in (True, False) for nb in (8, 9, 16, 17, 32, 33, 64, 13)]
+    formats = [(sg, nb) for sg in (True, False) for nb in ((8, 9, 16, 17, 32, 33, 64, 13) if tier == "quick" else range(1, 65))]
     for signed, n_bits in formats + formats[::-1]:
         if True:
-            for n_frac in sorted({0, 1, 4, n_bits // 2, n_bits - 1, n_bits, -2}):
+            for n_frac in (sorted({0, 1, 4, n_bits // 2, n_bits - 1, n_bits, -2}) if tier == "quick" else
+                           sorted({0, 1, 2, 3, 4, 7, 8, 15, 16, 31, 32, n_bits // 2, n_bits - 2, n_bits - 1, n_bits, n_bits + 1, n_bits + 9, -1, -2, -7})):
                 conv = tc.float_to_fp(signed, n_bits, n_frac)
                 back = tc.fp_to_float(n_frac)
                 vs = inputs(signed, n_bits, n_frac)
@@ -58,7 +59,7 @@ def run(tier="quick", seed=0):
                                      "inputs": {"signed": signed, "n_bits": n_bits, "n_frac": n_frac, "value": repr(v)}})
                 # round trip of representable values
                 for r0 in (lo, hi, 0, 1, -1 if signed else 1, hi // 3, lo // 3):
-                    if abs(r0) < 2 ** 53:
+                    if abs(r0) < 2 ** 53 and lo <= r0 <= hi:       # (a representable value of THIS format)
                         ev += 1
                         if conv(back(r0)) != r0 and len(viol) < 6:
                             viol.append({"id": "rt_%d" % ev, "clause": "round_trip", "why": "%r -> %r -> %r" % (r0, back(r0), conv(back(r0))),
@@ -177,6 +178,6 @@ def run(tier="quick", seed=0):
                                              "inputs": {"signed": signed, "n_bits": n_bits, "n_frac": n_frac, "value": repr(v)}})
     samples.append({"float_to_fp(True, 8, 4)": [[v, tc.float_to_fp(True, 8, 4)(v)] for v in (-8.0, -0.26, 7.95, 100.0)]})
     return {"name": "c16_typecasts", "evaluations": ev, "distinct_nontrivial": len(distinct),
-            "rule": "formats signed/unsigned x n_bits 8,9,16,17,32,33,64,13 x n_frac {0,1,4,n/2,n-1,n,-2}, each format built twice in one process (the list forwards, then backwards); inputs: both ends of the range, +-1 step, +-1 ulp, quarter steps, 0, +-0.5, +-1e30, subnormals, 2**63, 2**64; scalar result against exact rational scale/truncate/saturate, monotone over the sorted inputs, round trip of representable values, numpy converters element-wise against the scalar (arrays of doubles of shapes (), (n,), (1,n); float32 and float16 arrays; transposed, Fortran-ordered, axis-permuted and strided views, with the caller's array unchanged; one converter object called twice, the first result still intact afterwards), deprecated variants modulo 2**n (every format whose parameters they accept, every input)",
+            "rule": "formats signed/unsigned x n_bits 8,9,16,17,32,33,64,13 x n_frac {0,1,4,n/2,n-1,n,-2} (thorough: every width 1..64 x 20 fraction widths from -7 to n+9), each format built twice in one process (the list forwards, then backwards); inputs: both ends of the range, +-1 step, +-1 ulp, quarter steps, 0, +-0.5, +-1e30, subnormals, 2**63, 2**64; scalar result against exact rational scale/truncate/saturate, monotone over the sorted inputs, round trip of representable values, numpy converters element-wise against the scalar (arrays of doubles of shapes (), (n,), (1,n); float32 and float16 arrays; transposed, Fortran-ordered, axis-permuted and strided views, with the caller's array unchanged; one converter object called twice, the first result still intact afterwards), deprecated variants modulo 2**n (every format whose parameters they accept, every input)",
             "bound": "the listed formats and inputs", "exhaustive": False, "label": "bounded", "samples": samples,
             "violations": viol, "seconds": round(time.time() - t0, 2)}
